@@ -286,6 +286,12 @@ def _run_sharded(exe, lines, nshards=NPROC, timeout=3600, env=None, per_shard=20
                 # the process died on some case: find it by bisection-free replay
                 res = _run_one_by_one(exe, chunks[i], env)
             outs[i] = res
+        except subprocess.TimeoutExpired:
+            # some case of this shard hangs: replay one by one, the hanging ones become TIMEOUT lines
+            try:
+                outs[i] = _run_one_by_one(exe, chunks[i], env)
+            except Exception as e:  # noqa
+                errs.append(repr(e))
         except Exception as e:  # noqa
             errs.append(repr(e))
     th = [threading.Thread(target=work, args=(i,)) for i in range(nshards)]
